@@ -109,6 +109,19 @@ def run(ctx):
     ctx.rule(RK, "permuting the rows of trafo_characteristic_table (or of the transformer table) changes nothing: columns of the merged "
                  "characteristic frame reach the transformers only through a lookup keyed by (id, step), never positionally")
     C31.rule_keyed_assignment(ctx, RK)
+    _lints.ref_gens(ctx, "REF-GENS")      # relabelling net.gen: slack generators addressed by label
+    RV = "RESULT-INDEX"
+    ctx.rule(RV, "results.verify_results keeps a result table only if its index EQUALS the index of the element table (Index.equals: same "
+                 "labels in the same order): result extraction writes values positionally, so a permuted element table needs a re-initialised "
+                 "result table")
+    fv = ctx.repo.func("pandapower.results:verify_results")
+    st = next((x for x in ast.walk(fv.node) if isinstance(x, ast.Assign) and ast.unparse(x.targets[0]) == "index_equal"), None)
+    t = ast.unparse(st.value).replace(" ", "") if st is not None else ""
+    ok = "net[element].index.equals(net[res_element].index)" in t or "net[res_element].index.equals(net[element].index)" in t
+    ctx.ob(RV, "pandapower.results::verify_results::index-equals", ok,
+           "result table kept only when Index.equals holds" if ok else
+           f"`index_equal = {t[:110]}` accepts a result table with the same labels in another order: the values written positionally end up under "
+           "the labels of other elements", fv.loc(st) if st is not None else fv.loc())
     R5 = "IS-FACTOR"
     ctx.rule(R5, "adding an out-of-service element changes nothing: every term _calc_shunts_and_add_on_ppc accumulates inside an "
                  "element block is multiplied by that element's in-service mask")
@@ -125,6 +138,8 @@ def variants(repo):
     rb = "pandapower/results_branch.py"
     V = Variant
     return [
+        V("slack gens looked up by position", pd, replace_once('slack_gens = np.array(net.gen.index)[net._is_elements["gen"]\n                                             & net.gen["slack"].values]', 'slack_gens = np.flatnonzero(net._is_elements["gen"] & net.gen["slack"].values)'), "slack-gens-by-label"),
+        V("result table kept for a permuted element table", "pandapower/results.py", replace_once("net[element].index.equals(net[res_element].index)", "(len(net[res_element].index) == len(net[element].index) and net[element].index.isin(net[res_element].index).all())"), "RESULT-INDEX"),
         V("vk taken in table order", bb, in_function("_get_vk_values_from_table", lambda s: s.replace("            vk_new = [vk_mapping.get(key, 1) for key in zip(cleaned_id_characteristic, cleaned_step)]\n", "            vk_new = filtered_df[vk_var].values\n", 1)), "TABLE-ORDER"),
         V("table shunt without in-service mask", _bbu, replace_once('p = p + s["p_mw_table"].fillna(0).to_numpy() * v_ratio * vl', 'p = p + s["p_mw_table"].fillna(0).to_numpy() * v_ratio'), "IS-FACTOR"),
         V("dc line resistance without parallel", bb, replace_once('branch_dc[f:t, DC_BR_R] = line_dc["r_ohm_per_km"].values * length_km / baseR / parallel', 'branch_dc[f:t, DC_BR_R] = line_dc["r_ohm_per_km"].values * length_km / baseR'), "line-dc"),
